@@ -103,7 +103,7 @@ Definition parse_vop (f : list bytes) : option vop :=
       if is n "ret" then
         Some (VRet (if is x "lt" then VLt (match r with y :: _ => parse_Z y | [] => 0%Z end)
                     else if is x "odd" then VOdd else if is x "all" then VAll else VNo))
-      else if is n "sortby" then Some (VSortBy (if is x "desc" then VDesc else VAsc))
+      else if is n "sortby" then Some (VSortBy (if is x "desc" then VDesc else if is x "mod3" then VMod3 else VAsc))
       else
       match r with
       | [] =>
